@@ -46,6 +46,8 @@ public:
     bool equalResets(const ComponentPtr &other) const;
 
     bool performTestWithHistory(History &history, const ComponentConstPtr &component, TestType type) const;
+
+    ComponentPtr clone(ImportSourceMap &importSources) const;
 };
 
 } // namespace libcellml
